@@ -83,19 +83,38 @@ func (f *DoSymbols) Call(s *slip.Scope, args slip.List, depth int) slip.Object {
 	}
 	sort.Strings(names)
 
+	return doNames(s, sym, names, args[1:], rform, d2)
+}
+
+// doNames evaluates forms, an implicit tagbody inside a nil block, once for
+// each name with sym bound to the name and then evaluates the result form
+// which is inside the nil block as well.
+func doNames(s *slip.Scope, sym slip.Symbol, names []string, forms slip.List, rform slip.Object, depth int) slip.Object {
 	ss := s.NewScope()
 	ss.Block = true
-	forms := args[1:]
+	ss.TagBody = true
 	for _, name := range names {
 		ss.Let(sym, slip.Symbol(name))
-		for i := range forms {
-			if rr, ok2 := slip.EvalArg(ss, forms, i, d2).(*slip.ReturnResult); ok2 {
-				if rr.Tag == nil {
-					return rr.Result
+		for i := 0; i < len(forms); i++ {
+			switch forms[i].(type) {
+			case slip.List, slip.Funky:
+				switch tr := slip.EvalArg(ss, forms, i, depth).(type) {
+				case *slip.ReturnResult:
+					if tr.Tag == nil {
+						return tr.Result
+					}
+					return tr
+				case *GoTo:
+					if i = tr.TagIndex(forms, 0); i < 0 {
+						return tr
+					}
 				}
-				return rr
 			}
 		}
 	}
-	return ss.Eval(rform, d2)
+	result := ss.Eval(rform, depth)
+	if rr, ok := result.(*slip.ReturnResult); ok && rr.Tag == nil {
+		return rr.Result
+	}
+	return result
 }
